@@ -522,6 +522,8 @@ func (m *ImplCmd) Exec(line string) string {
 		return m.execCmd(tk)
 	case "genspec":
 		return m.genSpec(tk)
+	case "genpts":
+		return genPts(tk)
 	case "snapshot":
 		b, err := ioutil.ReadFile(filepath.Join(m.root, tk[1]))
 		if err != nil {
